@@ -60,3 +60,4 @@ def sub_post(self, expr, args, kwargs, result):
 SUBSTITUTION = MapperContract(
     "C08.SubstitutionMapper", "pymbolic.mapper.substitutor:SubstitutionMapper", rec=sub_rec,
     ensures=[("intercept-or-identity", sub_post)], setup=sub_setup, extra_args=False, property_id="C08")
+SUBSTITUTION.allowed_exc = c04.IDENTITY.allowed_exc
